@@ -1,6 +1,6 @@
 (* C05 — load then save preserves a package produced by any application. *)
 From Odf Require Import model.Base model.Chars model.XmlLex model.XmlTree model.Doc model.Inst model.LoadStyles model.Load model.LoadInst
-  gen.GenNs proofs.XmlRoundTrip proofs.DocProofs proofs.LoadProofs proofs.LoadRoundTrip.
+  model.FixPart gen.GenNs proofs.XmlRoundTrip proofs.DocProofs proofs.LoadProofs proofs.LoadRoundTrip proofs.FixPartProofs.
 
 (* se me co st: settings.xml, meta.xml, content.xml, styles.xml of the source package as parsed (None: absent) - any root
    element, any attributes on it and on the sections, any number and order of sections, character data between them,
@@ -64,3 +64,11 @@ Theorem C05_resave_any : forall env mime se me co st, let d := i_load_doc mime s
              (xml_parse (snd (i_metaxml env d))) (xml_parse (i_contentxml env d)) (xml_parse (i_stylesxml env d)) = finish (expected_gen d).
 Proof. exact resave_gen. Qed.
 Print Assumptions C05_resave_any.
+
+(* what the theorems above take as "the part as parsed" is the part as it stands in the package: before parsing, load() patches
+   every XML member textually (fix_part = __fixXmlPart: prefix declarations some producers leave out are put into the root
+   element).  For EVERY string: only the start tag of the root element is patched - everything in front of it and everything
+   from the '>' that ends it on, so every other tag and every character of text, is parsed as it is in the package *)
+Theorem C05_only_root_tag_patched : forall s, exists mid, fix_part s = firstn (root_begin s) s ++ mid ++ skipn (root_stop s) s.
+Proof. exact only_root_tag_patched. Qed.
+Print Assumptions C05_only_root_tag_patched.
